@@ -230,6 +230,7 @@ inductive Ev where
   | idle (time : Int) (done : Bool)   -- a cycle in which the handler was not awake (finished/sleeping)
   | att (a : Attempt)
   | restarted (time : Int)
+  | skipped (time : Int)              -- awake, but the lifecycle (`asap`, `one_by_one`, …) chose another handler
   deriving DecidableEq, Repr
 
 def attemptAt (env : Env) (l : Limits) (now : Int) (r : Rec) (x : Raised) (dur lag : Nat) : Attempt :=
@@ -304,20 +305,37 @@ def timerIdleNext (interval : Nat) (sharp : Bool) (r : Rec) (now : Int) : Int :=
 def timerReset (r : Rec) (now : Int) : Rec :=
   if r.finished && !r.failure then fromScratch now else r
 
-/-- The whole life of a timer, one script element per iteration of its loop (the element is not
-    used when nothing is awakened). A new retry series starts after a SUCCEEDED one only; a series
+/-- When the iteration that starts at `now` gets to its execution: `_timer` first waits until the
+    object has been idle long enough (`while clock() - memory.idle_reset_time < handler.idle`), i.e.
+    until `idleUntil = idle_reset_time + idle` (no `idle=`: `idleUntil ≤` the spawn time). -/
+def timerAt (now idleUntil : Int) : Int := if idleUntil > now then idleUntil else now
+
+/-- The whole life of ONE `_timer` task, one script element per iteration of its loop (the element is
+    not used when nothing is awakened). A new retry series starts after a SUCCEEDED one only; a series
     that has failed for good is kept, the gate of `execute_handlers_once` finds nothing awakened in
-    it, and the loop only keeps sleeping its interval. -/
-def timerRun (env : Env) (l : Limits) (interval : Nat) (sharp : Bool) :
+    it, and the loop only keeps sleeping its interval. NB the order in the code: the series' record
+    is created (`started := now`) BEFORE the idle wait, the execution comes after it. -/
+def timerRun (env : Env) (l : Limits) (interval : Nat) (sharp : Bool) (idleUntil : Int) :
     Int → Rec → List (Raised × Nat) → List Ev
   | _, _, [] => []
   | now, r, (x, dur) :: rest =>
       let r0 := timerReset r now
-      if r0.awakened now then
-        let a := attemptAt env l now r0 x dur 0
-        .att a :: timerRun env l interval sharp (timerNext interval sharp a) a.recAfter rest
+      let t := timerAt now idleUntil
+      if r0.awakened t then
+        let a := attemptAt env l t r0 x dur 0
+        .att a :: timerRun env l interval sharp idleUntil (timerNext interval sharp a) a.recAfter rest
       else
-        .idle now r0.finished :: timerRun env l interval sharp (timerIdleNext interval sharp r0 now) r0 rest
+        .idle t r0.finished :: timerRun env l interval sharp idleUntil (timerIdleNext interval sharp r0 t) r0 rest
+
+/-- A timer across re-spawns (`match_daemons` / `pause_daemons` stop the task with a reason, a later
+    `spawn_daemons` starts a new one): every task starts `State.from_scratch()` — counts, `started`,
+    `delayed` and a final failure of the previous task are forgotten (a failed DAEMON is remembered in
+    `memory.forever_stopped`; a failed timer never leaves its loop, so it is not). -/
+def respawnRun (env : Env) (l : Limits) (interval : Nat) (sharp : Bool) :
+    List (Int × List (Raised × Nat)) → List Ev
+  | [] => []
+  | (t0, script) :: rest =>
+      timerRun env l interval sharp t0 t0 (fromScratch t0) script ++ respawnRun env l interval sharp rest
 
 /-- The attempts of a list up to and including the first one that finished the record: one series. -/
 def takeSeries : List Attempt → List Attempt
@@ -354,6 +372,10 @@ inductive EStep where
       lands (API failure, or the operator is killed after the handler call and before the patch). -/
   | cycle (view : Nat) (stored : Bool) (dt wait : Nat) (x : Raised) (dur lag : Nat)
   | restart (downtime : Nat)
+  /-- a cycle in which the handler is awake on the shown version but the lifecycle selects another
+      handler (`asap`, the default, runs one handler per cycle): no attempt; `State.store` still
+      writes the handler's record if it is new (a fresh `from_scratch` record: `started` begins here). -/
+  | skipped (view : Nat) (stored : Bool) (dt : Nat)
   deriving DecidableEq, Repr
 
 /-- `State.from_storage(body).with_handlers(...)` on that version of the body. -/
@@ -374,8 +396,12 @@ def runEnv (env : Env) (l : Limits) : Int → List Rec → List EStep → List E
         .att a :: runEnv env l a.merged (if stored then a.recAfter :: hist else hist) rest
       else
         .idle t r.finished :: runEnv env l t hist rest
+  | now, hist, .skipped view stored dt :: rest =>
+      let t := now + dt
+      .skipped t :: runEnv env l t (if stored && (hist[view]?).isNone then fromScratch t :: hist else hist) rest
 
-/-- A step of `run` as a step of the environment in which nothing is stale and nothing is lost. -/
+/-- A step of `run` as a step of the environment in which nothing is stale and nothing is lost.
+    (A cycle that skips the handler is, for a record that exists, time passing: `.restart dt`.) -/
 def Step.lift : Step → EStep
   | .cycle dt wait x dur lag => .cycle 0 true dt wait x dur lag
   | .restart dn => .restart dn
